@@ -677,7 +677,14 @@ def transfer_success_chain(ctx: Ctx, rep: Report, rid: str):
         raise AnalysisError("handle_hash_diff: download_changed / upload_synced calls not found")
     fin = [n for n in g.nodes if n.kind == "stmt" and isinstance(n.ast, ast.Return) and isinstance(n.ast.value, ast.Name) and n.ast.value.id == "FINISHED"]
     # FINISHED reachable after the download only through the upload
-    p1 = g.reach([d.id for d in dl], lambda n: n in fin, avoid=lambda n: n in ul, follow=NORMAL)
+    # (a test `download_changed(...) and upload_synced(...)` holds both calls: its true edge has gone through the upload)
+    starts = [d.id for d in dl if d not in ul]
+    p1 = g.reach(starts, lambda n: n in fin, avoid=lambda n: n in ul, follow=NORMAL) if starts else None
+    for d in [d for d in dl if d in ul]:
+        t = d.ast if d.kind == "test" else None
+        both = isinstance(t, ast.BoolOp) and isinstance(t.op, ast.And) or (isinstance(t, ast.UnaryOp) and isinstance(t.operand, ast.BoolOp) and isinstance(t.operand.op, ast.And))
+        if not both:
+            p1 = p1 or [d]
     rep.check(rid, "handle_hash_diff|upload-before-finished", f, p1 is None, "after the download, FINISHED only through upload_synced",
               "handle_hash_diff can report FINISHED after the download without uploading: the change is booked as propagated", witness=describe_path(p1) if p1 else None)
     # the results are tested: a falsy download / upload result leads to PUNT
@@ -695,6 +702,8 @@ def transfer_success_chain(ctx: Ctx, rep: Report, rid: str):
                 detail.append("download")
             if "upload_synced(" in txt and not pol:
                 detail.append("upload")
+            if pol and " or " in txt and "not " in txt and "download_changed(" in txt and "upload_synced(" in txt:
+                detail += ["download", "upload"]       # `if not (download and upload): return PUNT`: either falsy result punts
     for n in fin:
         facts = ctx.facts(f).facts(n)
         if g.reach([d.id for d in dl], lambda m, n=n: m is n, follow=NORMAL) is None:
@@ -1583,3 +1592,108 @@ def refresh_covers_both_sides(ctx: Ctx, rep: Report, rid: str):
     rep.check(rid, "get_latest|condition", ge, ok and over_sides, "refresh when forced or the entry's newest change stamp is newer than the side's last refresh",
               "get_latest no longer refreshes a side exactly when `force or max(change stamps of all sides) > its _last_gotten`: a change on one side no longer re-reads the quiet "
               "side, so a peer edit / move whose event is still in flight is not noticed before the engine deletes, overwrites or renames the peer object")
+
+
+def sort_key_takes_latest_stamp(ctx: Ctx, rep: Report, rid: str):
+    """SyncState.change: entries are ordered by (priority, the LATER of the two sides' change stamps): an entry both of whose sides are pending is as old as its
+    latest notification, not as old as one of the sides."""
+    f = ctx.prog.func("SyncState.change")
+    keys = [n for n in ast.walk(f.node) if isinstance(n, ast.Lambda) and isinstance(n.body, ast.Tuple) and len(n.body.elts) == 2
+            and any(isinstance(x, ast.Attribute) and x.attr == "priority" for x in ast.walk(n.body.elts[0]))]
+    if not keys:
+        raise AnalysisError("SyncState.change: the (priority, stamp) sort key was not found")
+    for lam in keys:
+        e = lam.body.elts[1]
+        if "random" in ast.unparse(e):
+            continue        # the shuffle mode of the tests: (priority, random)
+        stamps = {pat_side(x) for x in ast.walk(e) if isinstance(x, ast.Attribute) and x.attr == "changed"}
+        ok = isinstance(e, ast.Call) and isinstance(e.func, ast.Name) and e.func.id == "max" and {"LOCAL", "REMOTE"} <= stamps
+        rep.check(rid, "change|sort-key", ctx.line(f, lam), ok, "second key component is max(stamp of LOCAL, stamp of REMOTE)",
+                  "the sort key's second component is `%s`, not the later of the two sides' change stamps: an entry whose sides were notified at different times is "
+                  "ranked by the older one and overtakes entries whose last notification is older" % ast.unparse(e)[:120])
+
+
+def pat_side(attr: ast.Attribute) -> str:
+    v = attr.value
+    if isinstance(v, ast.Subscript):
+        return ast.unparse(v.slice)
+    return "?"
+
+
+def saved_cursor_is_the_consumed_position(ctx: Ctx, rep: Report, rid: str):
+    """EventManager._save_current_cursor persists the provider's current_cursor (the position up to which events were handed out), never latest_cursor (where the
+    provider's feed ends now): what lies between the two has not been applied to the state yet, a restart would skip it."""
+    f = ctx.prog.func("EventManager._save_current_cursor")
+    stores = [c for c in ctx.calls(f, "storage_update_data")]
+    if not stores:
+        raise AnalysisError("_save_current_cursor: no storage_update_data call")
+    from sa.util import unalias
+    for c in stores:
+        if len(c.args) < 2:
+            continue
+        v = unalias(ctx, f, c.args[1])
+        txt = ast.unparse(v)
+        ok = txt.endswith(".current_cursor") and "latest" not in txt
+        rep.check(rid, "_save_current_cursor|value", ctx.line(f, c), ok, "persists provider.current_cursor",
+                  "the persisted cursor is `%s`, not the provider's current_cursor: events between the consumed position and that value are skipped after a restart" % txt)
+
+
+def no_late_bound_loop_variable(ctx: Ctx, rep: Report, rid: str, specs):
+    """A lambda / nested function created inside a loop or comprehension and kept (passed on, stored) must not read the loop variable when it is CALLED: all the
+    closures of the loop then see the last value (the classic late binding).  Binding it as a default (`lambda side=side: ...`) is the accepted idiom."""
+    n_checked = 0
+    for spec in specs:
+        try:
+            f = ctx.prog.func(spec)
+        except AnalysisError:
+            continue        # dissolved into its caller, or renamed: nothing to look at under this name
+        for loop in [x for x in ast.walk(f.node) if isinstance(x, (ast.For, ast.ListComp, ast.SetComp, ast.GeneratorExp, ast.DictComp))]:
+            if isinstance(loop, ast.For):
+                targets = {x.id for x in ast.walk(loop.target) if isinstance(x, ast.Name)}
+                bodies = loop.body
+            else:
+                targets = set()
+                for g in loop.generators:
+                    targets |= {x.id for x in ast.walk(g.target) if isinstance(x, ast.Name)}
+                bodies = [loop]
+            for b in bodies:
+                for lam in [x for x in ast.walk(b) if isinstance(x, (ast.Lambda, ast.FunctionDef)) and x is not loop]:
+                    params = {a.arg for a in lam.args.args + lam.args.kwonlyargs}
+                    body = lam.body if isinstance(lam.body, list) else [lam.body]
+                    used = {x.id for st in body for x in ast.walk(st) if isinstance(x, ast.Name) and isinstance(x.ctx, ast.Load)} - params
+                    late = sorted(used & targets)
+                    # a key= / default= argument of a call evaluated in the same iteration is consumed at once
+                    immediate = any(isinstance(c, ast.Call) and any(k.value is lam for k in c.keywords if k.arg in ("key", "default")) for c in ast.walk(b))
+                    n_checked += 1
+                    if late and not immediate:
+                        rep.violation(rid, "%s|closure over %s" % (f.name, ",".join(late)), ctx.line(f, lam), "`%s` is created once per iteration but reads the loop variable `%s` "
+                                      "when it is called - every copy sees the last value (e.g. both event managers re-authenticate side 1)" % (ast.unparse(lam)[:80], late[0]), func=f.qname)
+        rep.ok(rid, "%s|closures" % spec, "-", "no kept closure reads a loop variable late", nontrivial=False)
+
+
+def derived_local_is_recomputed(ctx: Ctx, rep: Report, rid: str, specs):
+    """Inside a loop, a local X computed from a local Y must be computed again after Y is reassigned in the loop, before X is used there: otherwise the loop
+    retries with the value of the first round (conflict_rename: the next `.conflictedN` name is chosen but the old path is renamed again, for ever)."""
+    for spec in specs:
+        try:
+            f = ctx.prog.func(spec)
+        except AnalysisError:
+            continue
+        found = 0
+        for loop in [x for x in ast.walk(f.node) if isinstance(x, (ast.For, ast.While))]:
+            inside = [x for st in loop.body for x in ast.walk(st)]
+            reassigned = {t.id for x in inside if isinstance(x, (ast.Assign, ast.AugAssign)) for t in (x.targets if isinstance(x, ast.Assign) else [x.target]) if isinstance(t, ast.Name)}
+            assigned_inside = set(reassigned)
+            used_inside = {x.id for x in inside if isinstance(x, ast.Name) and isinstance(x.ctx, ast.Load)}
+            # locals defined before the loop from something the loop reassigns, used in the loop, never recomputed in it
+            for st in ast.walk(f.node):
+                if isinstance(st, ast.Assign) and len(st.targets) == 1 and isinstance(st.targets[0], ast.Name) and st not in inside and st.lineno < loop.lineno:
+                    x = st.targets[0].id
+                    deps = {n.id for n in ast.walk(st.value) if isinstance(n, ast.Name)} & reassigned
+                    if deps and x in used_inside and x not in assigned_inside and x not in deps:
+                        # only when the dependency is really a recomputed value (assigned from an expression, not just a counter read by the loop test)
+                        found += 1
+                        rep.violation(rid, "%s|%s" % (f.name, x), ctx.line(f, st), "`%s` is computed from `%s` before the loop, `%s` is reassigned inside the loop, and the loop keeps "
+                                      "using the first `%s`" % (x, sorted(deps)[0], sorted(deps)[0], x), func=f.qname)
+        if not found:
+            rep.ok(rid, "%s|derived-locals" % spec, "-", "every local derived from a loop-updated local is recomputed in the loop", nontrivial=False)
